@@ -222,6 +222,16 @@ function focusNodes(r, fs_) {
   const it = (f) => X.mem(X.id('item'), f)
   const body = () => ({ t: 'el', tag: 'q', attrs: [{ fam: 'plain', name: 'v', value: M.ev(it('v')) }, { fam: 'data:', name: 'x', value: M.ev(it('x')) }], children: [{ t: 'text', v: M.mv('#', it('id'), ':', X.id('index'), ':', X.id(r.pick(['a', 'flag', 's'])), ':', X.idx(it('sub'), X.num('1'))) }] })
   const out = []
+  // several bindings of one event on one element (different phases / kinds, legacy spellings, and the same binding
+  // twice - legal, see parse::tag::test::event_listener): each keeps its own listener through updates
+  if (r.bool(0.3)) {
+    const f = () => X.id(r.pick(['a', 'b', 'flag', 's']))
+    const h = () => r.pick([() => M.ev(X.id('fn')), () => M.ev(X.cond(f(), X.str('onTap'), X.str('handler'))), () => M.mv('', X.cond(f(), X.str('onTap'), X.str('h'))), () => M.ev(X.cond(f(), X.id('fn'), X.str('h'))), () => M.sv('handler')])()
+    const kinds = [['bind', 'tap'], ['bind', 'tap'], ['plain', 'ontap'], ['plain', 'bindtap'], ['capture-bind', 'tap'], ['catch', 'tap'], ['mut-bind', 'tap'], ['catch', 'tap']]
+    const attrs = []
+    for (let k = r.range(2, 4); k > 0; k--) { const [fam, name] = r.pick(kinds); attrs.push({ fam, name, value: h() }) }
+    out.push({ t: 'el', tag: r.pick(['q', 'x-a']), attrs, children: [] })
+  }
   if (r.bool(0.4)) out.push({ t: 'el', tag: 'q', attrs: [{ fam: 'plain', name: 'n', value: M.ev(X.mem(X.id('list'), 'length')) }, { fam: 'data:', name: 'foo', value: M.ev(X.mem(X.idx(X.id('list'), X.num('1')), 'v')) }, { fam: 'plain', name: 'once', value: M.ev(X.mem(X.idx(X.obj([{ k: 'spread', e: X.id('list') }]), X.num('0')), 'v')) }, { fam: 'mark', name: 'x1', value: M.ev(X.idx(X.obj([{ k: 'kv', name: 'x', e: X.num('1') }, { k: 'spread', e: X.id('arr') }]), X.num('1'))) }], children: [{ t: 'text', v: M.mv('', X.mem(X.idx(X.arr([{ k: 'spread', e: X.id('list') }]), X.num('0')), 'id'), '/', X.mem(X.obj([{ k: 'spread', e: X.id('arr') }]), 'length'), '/', X.mem(X.id('arr'), 'length'), '/', X.mem(X.idx(X.obj([{ k: 'spread', e: X.id('list') }]), X.num('0')), 'v'), '/', X.idx(X.obj([{ k: 'kv', name: 'x', e: X.num('1') }, { k: 'spread', e: X.id('arr') }]), X.num('1'))) }] })
   const k = r.range(1, 2)
   for (let i = 0; i < k; i++) {
